@@ -38,18 +38,42 @@ def adjoint_obs(oid, ys, gnames, dx, xname, pc, mv, kind='POST', timeout=None, e
             seen_b.add((h, names))
             taps = tuple(n for n in names if n != gname)
             keys_b[(h, tuple(sorted(taps)))] = ent
+        # small concrete axes of the output (orientation, real/imag, band) are enumerated:
+        # one query per value keeps each formula small
+        split_vars = [(gv[k], list(range(n))) for k, n in enumerate(y.shape) if is_conc(n) and 1 < n <= 8]
+        cases = [[]]
+        for v, vals in split_vars:
+            cases = [cs + [(v, z3.IntVal(q))] for cs in cases for q in vals]
         for key in sorted(set(keys_f) | set(keys_b), key=str):
-            sa = coeff_sum(keys_f.get(key, []))
-            sb = coeff_sum(keys_b.get(key, []))
-            st, model, dt, be = solve.check_unsat(list(pc) + rng_x + rng_g + list(extra_ranges) + [sa != sb], timeout,
-                                                  list(mv) + canon.all())
+            sa0 = coeff_sum(keys_f.get(key, []))
+            sb0 = coeff_sum(keys_b.get(key, []))
+            worst = 'proved'
+            tot = 0.0
+            detail = {'terms': (len(keys_f.get(key, [])), len(keys_b.get(key, []))), 'cases': len(cases)}
+            be_used = 'z3'
+            for cs in cases:
+                if cs:
+                    sa = z3.simplify(z3.substitute(sa0, *cs))
+                    sb = z3.simplify(z3.substitute(sb0, *cs))
+                    rg = [z3.simplify(z3.substitute(r_, *cs)) for r_ in rng_g]
+                else:
+                    sa, sb, rg = sa0, sb0, rng_g
+                if sa.eq(sb):
+                    continue
+                st, model, dt, be = solve.check_unsat(list(pc) + rng_x + rg + list(extra_ranges) + [sa != sb], timeout,
+                                                      list(mv) + canon.all())
+                tot += dt
+                be_used = be
+                if st == 'sat':
+                    worst = 'refuted'
+                    detail['model'] = dict(model, **{str(v): q.as_long() for v, q in cs})
+                    break
+                if st != 'unsat':
+                    worst = 'undecided'
+                    detail['reason'] = str(model)
+                    detail['case'] = str(cs)
             name = '%s/adjoint[d%s/d%s,mono=%s]' % (oid, gname, xname, '*'.join(key[1]) or '1')
-            if st == 'unsat':
-                obs.append(Ob(name, kind, 'proved', be, dt, {'terms': (len(keys_f.get(key, [])), len(keys_b.get(key, [])))}))
-            elif st == 'sat':
-                obs.append(Ob(name, kind, 'refuted', be, dt, {'model': model}))
-            else:
-                obs.append(Ob(name, kind, 'undecided', be, dt, {'reason': str(model)}))
+            obs.append(Ob(name, kind, worst, be_used, tot, detail))
     for key in bcoef:
         if key not in seen_b:
             obs.append(Ob('%s/backward-mentions-unknown-data%s' % (oid, key[1]), kind, 'refuted', 'by-construction', 0))
